@@ -677,11 +677,13 @@ func init() {
 					on := []string{"during-devset", "after-devset"}[g.pick(2)]
 					p.Faults = append(p.Faults, Fault{Kind: k, Target: t, On: on, N: 1 + g.pick(8)})
 				}
-				if g.chance(1, 2) {
+				if g.chance(2, 3) {
 					// one more fault exactly at a push of a re-synchronisation (resolved by the runner)
 					t := p.Knobs.Targets[g.pick(len(p.Knobs.Targets))]
 					p.Knobs.Resync = &ResyncSpec{Target: t, Pick: []int{0, 0, 0, 1, 2}[g.pick(5)], Kind: []string{"dev-restart", "dev-restart", "conn-replace"}[g.pick(3)],
 						On: []string{"after-devset", "after-devset", "during-devset"}[g.pick(3)]}
+					// (a re-synchronisation needs something to repair: the device restarts once after a while)
+					p.Faults = append(p.Faults, Fault{Kind: "dev-restart", Target: t, On: "effect", N: 60 + g.pick(140)})
 				}
 				if g.chance(1, 2) {
 					// every call of one controller's reconciles is served last: everything else (a new connection, a new
